@@ -35,6 +35,14 @@ def run(ctx, pid):
         raise vlib.CheckError("driver failed:\n" + out[-3000:])
     pred = (lambda c: c in mine or (pid == "C06" and c.startswith("Replay-")))
     ok, info = chainlib.validate(ctx, trace, "Trace_Ledger.tla", "Trace_Ledger.cfg", pred, pid, describe_any)
+    rel_stats = None
+    if pid in ("C04", "C05"):
+        # every transaction type that names another address, attempted by every actor role against every target in every
+        # relationship state (Relations.tla), as real transactions one per block
+        rtrace, rmodel, rel_stats = chainlib.relation_scenarios(ctx, quick)
+        ok2, info2 = chainlib.validate(ctx, rtrace, "Trace_Ledger.tla", "Trace_Ledger.cfg", pred, pid, describe_rel)
+        ok = ok and ok2
+        rel_stats["model_states"] = rmodel.distinct
     rows = vlib.read_ndjson(trace)
     blocks = [x for x in rows if x.get("ev") == "Block" and not x.get("refused")]
     crafted = [x for x in rows if x.get("ev") == "Crafted"]
@@ -67,7 +75,7 @@ def run(ctx, pid):
     cov = {"states": r.distinct, "transitions": r.generated,
            "traces_validated_against_impl": stats.get("histories", 0),
            "blocks": len(blocks), "txs_included": included, "single_tx_blocks": single, "epoch_finishing_blocks": epochs,
-           "replay_attempts_crafted": len(crafted),
+           "replay_attempts_crafted": len(crafted), "relationship_scenarios": rel_stats,
            "tx_types_included": sorted({t["type"] for x in blocks for t in (x.get("txs") or [])}),
            "samples": [{k: blocks[len(blocks) // 3].get(k) for k in ("h", "kind", "flags", "proposer", "txs", "epochLen")}],
            "rule": "seeded random histories on real chains (all plain tx types, targets in every relationship to the signer, amounts on the "
@@ -77,6 +85,22 @@ def run(ctx, pid):
     return vlib.finish(ctx, "model_checking", cov, assumptions=[
         "issuance bound per block = BlockReward + FinalCommitteeReward (proposed block) + that sum x epoch length (validation-finished block)",
         "contract transactions are exercised by C15's driver"])
+
+
+def describe_rel(clause, row, rows, line):
+    txs = row.get("txs") or []
+    at = (txs[0].get("attempt") if txs else None) or {}
+    roles = {}
+    for x in rows[:line][::-1]:
+        if x.get("ev") == "Genesis":
+            roles = x.get("roles") or {}
+            break
+    path = [t.get("attempt") for x in rows[:line] if x.get("ev") == "Block" and x.get("hid") == row.get("hid") for t in (x.get("txs") or []) if t.get("attempt")]
+    key = "%s:%s:%s-by-%s-on-%s" % (clause, at.get("op", "?"), "admissible" if at.get("expect") else "inadmissible", at.get("a"), at.get("b"))
+    what = "clause %s broken by the %s attempt %s (relationship scenario %s, roles %s); path so far %s; tx %s" % (
+        clause, "admissible" if at.get("expect") else "INADMISSIBLE", json.dumps(at), row.get("hid"), json.dumps(roles),
+        json.dumps(path)[:500], json.dumps({k: txs[0].get(k) for k in ("type", "from", "to", "tips", "amount")} if txs else {})[:300])
+    return key, what
 
 
 def describe_any(clause, row, rows, line):
